@@ -287,3 +287,66 @@ def _construction(ctx):
             and type(ce._translator).make is executable_factories.ExecutableFactoryBase.make
         ctx.obligation('os_services(%s).command_executor = CommandExecutorFromProcessExecutor(ProcessExecutor(), '
                        'ExecutableFactoryBase)' % os_name, ok, 'enumeration', detail={'type': repr(type(ce))})
+
+# ------------------------------------------------------------------------------ shared environment interfaces
+# (used by the plumbing contracts of C10 and C19)
+
+from pyvc.values import OpaqueVal
+from exactly_lib.test_case.command_executor import CommandExecutor
+from exactly_lib.test_case.os_services import OsServices
+
+EXECUTE = 'execute'
+
+
+def _mk_hard_error(interp, o):
+    return HardErrorException(OpaqueVal(interp.st.fresh_name('hard-error-message')))
+
+
+class CommandExecutorI(Interface):
+    """The CommandExecutor of the OS services, as an opaque object: each call of `execute` is one ghost
+    event ('execute', executor, (command, settings, files)); it returns any exit code or raises
+    HardErrorException (which is what CommandExecutorFromProcessExecutor.execute -- verified above, and the
+    executor of every run by `construction` -- does when the process cannot be started or times out)."""
+    target_class = CommandExecutor
+    methods = {'execute': Method(returns=Int, event=EXECUTE, params=['command', 'settings', 'files'],
+                                 may_raise=(_mk_hard_error,))}
+
+
+class OsServicesI(Interface):
+    target_class = OsServices
+    attrs = {'command_executor': Iface(CommandExecutorI)}
+
+
+def executions(trace):
+    """(executor, command, settings, files) of every process start requested on this path, in order"""
+    return [(e[1], e[2][0], e[2][1], e[2][2]) for e in trace if e[0] == EXECUTE]
+
+
+def execution_results(trace):
+    return [e[2] for e in trace if e[0] == EXECUTE + ':returned']
+
+
+class FileI(Interface):
+    """an open file object"""
+    methods = {'write': Method(event='file.write'), 'read': Method(returns=Str), 'seek': Method(),
+               'flush': Method(), 'close': Method()}
+
+
+class FileCtxI(Interface):
+    """`path.open(...)`: a context manager giving the open file; does not swallow exceptions"""
+    methods = {'__enter__': Method(returns=Iface(FileI)), '__exit__': Method(returns=Const(None))}
+
+
+class FsPathI(Interface):
+    """a pathlib.Path in the file system (existence etc. is outside these properties)"""
+    target_class = pathlib.Path
+    methods = {'open': Method(returns=Iface(FileCtxI), event='path.open'),
+               '__truediv__': Method(returns=Iface(lambda: FsPathI), pure=True),
+               '__str__': Method(returns=Str, pure=True),
+               'mkdir': Method()}
+
+
+class StdinCtxI(Interface):
+    """a ContextManager[ProcessExecutionFile] (made by as_stdin / file_ctx_managers): gives the file to use
+    as a std stream of a process; does not swallow exceptions"""
+    methods = {'__enter__': Method(returns=Any_), '__exit__': Method(returns=Const(None))}
